@@ -1,9 +1,71 @@
 (* C11 — the Tsukamoto values of the six monotonic terms (Arc, Concave, Ramp, Sigmoid, SShape, ZShape),
-   read over R on the generated kernels of Gen/GenTerm.v: inverse law, monotonicity in y, location of z. *)
+   read over R on the generated kernels of Gen/GenTerm.v: inverse law, monotonicity in y, location of z.
+
+   Only section 1 looks inside the generated kernels, and it closes every goal by algebra (ring/field under
+   the function symbols), never by matching the syntactic shape of the translation:
+     <T>_tsukamoto_R : <T>_tsukamoto p y = closed form                       (this file)
+     <T>_eq / <T>_eq_h : <T>_membership p h x = h * <T>_shape p x            (Proofs/TermA.v, TermB.v; the
+        group-A lemmas are restated here without the bound h <= 1, by the same tactic `eqgenT`)
+   Everything after section 1 argues about the closed forms and the documented shapes of Spec/SpecTerm{A,B}.v. *)
 From Coq Require Import Reals Lra Lia Bool Psatz String List.
-From VF Require Import Num NumR GenTerm.
+From VF Require Import Num NumR GenTerm SpecTermA SpecTermB TermA TermB.
 Import ListNotations.
 Local Open Scope R_scope.
+
+(* ------------------------------------------------------------------ 1. closed forms of the generated kernels *)
+
+(* equal up to ring/field identities, also below sqrt, ln, exp, Rabs (commuted operands, regrouping, named
+   locals): first bring the arguments of these functions on the left to the spelling used on the right *)
+Ltac tsk_eq :=
+  first [ reflexivity | solve [unfold Rdiv; ring] | solve [field] | progress f_equal; tsk_eq ].
+Ltac tsk_norm1 f :=
+  repeat match goal with
+  | |- ?lhs = ?rhs =>
+    match lhs with context [f ?a] =>
+      match rhs with context [f ?b] =>
+        tryif constr_eq a b then fail else idtac;
+        replace a with b by (solve [tsk_eq])
+      end
+    end
+  end.
+Ltac tsk_args := tsk_norm1 sqrt; tsk_norm1 ln; tsk_norm1 exp; tsk_norm1 Rabs; tsk_eq.
+(* read a kernel over R, split its comparisons (the two sides may spell a guard differently), then algebra *)
+Ltac tsk_closed := cbv zeta; unR; splitR; try (exfalso; lra); tsk_args.
+
+Lemma Ramp_tsukamoto_R (s e h y : R) : Ramp_tsukamoto s e h y = s + (e - s) * y / h.
+Proof. unfold Ramp_tsukamoto. tsk_closed. Qed.
+
+Lemma Sigmoid_tsukamoto_R (i s h y : R) : Sigmoid_tsukamoto i s h y = i + ln (h / y - 1) / - s.
+Proof. unfold Sigmoid_tsukamoto. tsk_closed. Qed.
+
+Lemma Concave_tsukamoto_R (i e h y : R) : Concave_tsukamoto i e h y = h * (i - e) / y + 2 * e - i.
+Proof. unfold Concave_tsukamoto. tsk_closed. Qed.
+
+Lemma SShape_tsukamoto_R (s e h y : R) : SShape_tsukamoto s e h y =
+  if Rleb y (h / 2) then s + (e - s) * sqrt (y / (2 * h)) else e - (e - s) * sqrt ((h - y) / (2 * h)).
+Proof. unfold SShape_tsukamoto. tsk_closed. Qed.
+
+Lemma ZShape_tsukamoto_R (s e h y : R) : ZShape_tsukamoto s e h y =
+  if Rleb y (h / 2) then e - (e - s) * sqrt (y / (2 * h)) else s + (e - s) * sqrt ((h - y) / (2 * h)).
+Proof. unfold ZShape_tsukamoto. tsk_closed. Qed.
+
+(* r = end - start, centre c = end *)
+Lemma Arc_tsukamoto_R (s e h y : R) : Arc_tsukamoto s e h y =
+  e + (if Rltb s e then -1 else 1) * sqrt ((e - s) * (e - s) - y * (e - s) / h * (y * (e - s) / h)).
+Proof. unfold Arc_tsukamoto. tsk_closed. Qed.
+
+(* membership = height * documented shape, for ANY height (TermA states these under 0 < h <= 1, which the
+   inverse law does not need); Arc_eq and Sigmoid_eq of TermB carry no height bound and are used as they are *)
+Lemma Ramp_eq_h (s e h x : R) : s <> e -> Ramp_membership s e h x = h * Ramp_shape s e x.
+Proof. intros Hse. unfold Ramp_membership, Ramp_shape. eqgenT. Qed.
+Lemma Concave_eq_h (i e h x : R) : i <> e -> Concave_membership i e h x = h * Concave_shape i e x.
+Proof. intros Hie. unfold Concave_membership, Concave_shape. eqgenT. Qed.
+Lemma SShape_eq_h (s e h x : R) : SShape_membership s e h x = h * SShape_shape s e x.
+Proof. unfold SShape_membership, SShape_shape. eqgenT. Qed.
+Lemma ZShape_eq_h (s e h x : R) : ZShape_membership s e h x = h * ZShape_shape s e x.
+Proof. unfold ZShape_membership, ZShape_shape. eqgenT. Qed.
+
+(* ================================================================== 2. no generated kernel is unfolded below *)
 
 (* ------------------------------------------------------------------ toolbox *)
 
@@ -13,14 +75,14 @@ Proof.
   unfold Rdiv. rewrite Rmult_assoc, Rinv_l by lra. lra.
 Qed.
 
-Lemma div_unit (h y : R) : 0 < y < h -> 0 < y / h < 1.
+Lemma tsk_div_unit (h y : R) : 0 < y < h -> 0 < y / h < 1.
 Proof.
   intros [Hy Hh]. assert (Hi : 0 < / h) by (apply Rinv_0_lt_compat; lra). split.
   - unfold Rdiv. apply Rmult_lt_0_compat; assumption.
   - apply Rmult_lt_reg_r with h; [lra|]. unfold Rdiv. rewrite Rmult_assoc, Rinv_l by lra. lra.
 Qed.
 
-Lemma div_le_compat (h a b : R) : 0 < h -> a <= b -> a / h <= b / h.
+Lemma tsk_div_le_compat (h a b : R) : 0 < h -> a <= b -> a / h <= b / h.
 Proof.
   intros Hh Hab. unfold Rdiv. apply Rmult_le_compat_r; [left; apply Rinv_0_lt_compat; exact Hh | exact Hab].
 Qed.
@@ -30,18 +92,15 @@ Proof. intros Ha Hab. apply Rinv_le_contravar; assumption. Qed.
 
 (* ------------------------------------------------------------------ Ramp *)
 
-Lemma Ramp_tsukamoto_R (s e h y : R) : Ramp_tsukamoto s e h y = s + (e - s) * y / h.
-Proof. unfold Ramp_tsukamoto; cbv zeta; unR. unfold Rdiv; ring. Qed.
-
 Lemma Ramp_z_in_support_inc (s e h y : R) : s < e -> 0 < y < h -> s < Ramp_tsukamoto s e h y < e.
 Proof.
-  intros Hse Hy. rewrite Ramp_tsukamoto_R. pose proof (div_unit h y Hy) as Hu.
+  intros Hse Hy. rewrite Ramp_tsukamoto_R. pose proof (tsk_div_unit h y Hy) as Hu.
   replace ((e - s) * y / h) with ((e - s) * (y / h)) by (unfold Rdiv; ring). nra.
 Qed.
 
 Lemma Ramp_z_in_support_dec (s e h y : R) : e < s -> 0 < y < h -> e < Ramp_tsukamoto s e h y < s.
 Proof.
-  intros Hse Hy. rewrite Ramp_tsukamoto_R. pose proof (div_unit h y Hy) as Hu.
+  intros Hse Hy. rewrite Ramp_tsukamoto_R. pose proof (tsk_div_unit h y Hy) as Hu.
   replace ((e - s) * y / h) with ((e - s) * (y / h)) by (unfold Rdiv; ring). nra.
 Qed.
 
@@ -52,18 +111,18 @@ Proof.
   destruct (Rtotal_order s e) as [Hlt | [Heq | Hgt]]; [| contradiction |].
   - pose proof (Ramp_z_in_support_inc s e h y Hlt Hy) as Hz. revert Hz.
     rewrite Ramp_tsukamoto_R. set (z := s + (e - s) * y / h). intros Hz.
-    unfold Ramp_membership; cbv zeta; unR; splitR; cbn [Bool.eqb]; try lra.
-    subst z. field. lra.
+    rewrite Ramp_eq_h by exact Hse. unfold Ramp_shape; splitR; try lra.
+    subst z. field; repeat split; lra.
   - pose proof (Ramp_z_in_support_dec s e h y Hgt Hy) as Hz. revert Hz.
     rewrite Ramp_tsukamoto_R. set (z := s + (e - s) * y / h). intros Hz.
-    unfold Ramp_membership; cbv zeta; unR; splitR; cbn [Bool.eqb]; try lra.
-    subst z. field. lra.
+    rewrite Ramp_eq_h by exact Hse. unfold Ramp_shape; splitR; try lra.
+    subst z. field; repeat split; lra.
 Qed.
 
 Lemma Ramp_z_monotone_inc (s e h y1 y2 : R) : s < e -> 0 < h -> y1 <= y2 ->
   Ramp_tsukamoto s e h y1 <= Ramp_tsukamoto s e h y2.
 Proof.
-  intros Hse Hh Hy. rewrite !Ramp_tsukamoto_R. pose proof (div_le_compat h y1 y2 Hh Hy).
+  intros Hse Hh Hy. rewrite !Ramp_tsukamoto_R. pose proof (tsk_div_le_compat h y1 y2 Hh Hy).
   replace ((e - s) * y1 / h) with ((e - s) * (y1 / h)) by (unfold Rdiv; ring).
   replace ((e - s) * y2 / h) with ((e - s) * (y2 / h)) by (unfold Rdiv; ring). nra.
 Qed.
@@ -71,23 +130,17 @@ Qed.
 Lemma Ramp_z_monotone_dec (s e h y1 y2 : R) : e < s -> 0 < h -> y1 <= y2 ->
   Ramp_tsukamoto s e h y2 <= Ramp_tsukamoto s e h y1.
 Proof.
-  intros Hse Hh Hy. rewrite !Ramp_tsukamoto_R. pose proof (div_le_compat h y1 y2 Hh Hy).
+  intros Hse Hh Hy. rewrite !Ramp_tsukamoto_R. pose proof (tsk_div_le_compat h y1 y2 Hh Hy).
   replace ((e - s) * y1 / h) with ((e - s) * (y1 / h)) by (unfold Rdiv; ring).
   replace ((e - s) * y2 / h) with ((e - s) * (y2 / h)) by (unfold Rdiv; ring). nra.
 Qed.
 
 (* ------------------------------------------------------------------ Sigmoid *)
 
-Lemma Sigmoid_tsukamoto_R (i s h y : R) : Sigmoid_tsukamoto i s h y = i + ln (h / y - 1) / - s.
-Proof. unfold Sigmoid_tsukamoto; cbv zeta; unR. reflexivity. Qed.
-
-Lemma Sigmoid_membership_R (i s h x : R) : Sigmoid_membership i s h x = h * 1 / (1 + exp (- s * (x - i))).
-Proof. unfold Sigmoid_membership; cbv zeta; unR. reflexivity. Qed.
-
 Lemma Sigmoid_inverse (i s h y : R) : s <> 0 -> 0 < y < h ->
   Sigmoid_membership i s h (Sigmoid_tsukamoto i s h y) = y.
 Proof.
-  intros Hs Hy. rewrite Sigmoid_membership_R, Sigmoid_tsukamoto_R.
+  intros Hs Hy. rewrite Sigmoid_eq, Sigmoid_tsukamoto_R. unfold Sigmoid_shape.
   pose proof (div_gt1 h y Hy) as Hpos.
   replace (- s * (i + ln (h / y - 1) / - s - i)) with (ln (h / y - 1)) by (field; lra).
   rewrite exp_ln by lra. field. lra.
@@ -171,9 +224,6 @@ Qed.
 
 (* ------------------------------------------------------------------ Concave *)
 
-Lemma Concave_tsukamoto_R (i e h y : R) : Concave_tsukamoto i e h y = h * (i - e) / y + 2 * e - i.
-Proof. unfold Concave_tsukamoto; cbv zeta; unR. reflexivity. Qed.
-
 (* increasing: inflection < end; the value lies left of `end` (support of the curved part) *)
 Lemma Concave_z_in_support_inc (i e h y : R) : i < e -> 0 < y < h -> Concave_tsukamoto i e h y < e.
 Proof.
@@ -194,13 +244,13 @@ Proof.
   destruct (Rtotal_order i e) as [Hlt | [Heq | Hgt]]; [| contradiction |].
   - pose proof (Concave_z_in_support_inc i e h y Hlt Hy) as Hz. revert Hz.
     rewrite Concave_tsukamoto_R. set (z := h * (i - e) / y + 2 * e - i). intros Hz.
-    unfold Concave_membership; cbv zeta; unR; splitR; try lra.
+    rewrite Concave_eq_h by exact Hie. unfold Concave_shape; splitR; try lra.
     replace (2 * e - i - z) with (h * (e - i) / y) by (subst z; field; lra).
     field; repeat split; lra.
   - pose proof (Concave_z_in_support_dec i e h y Hgt Hy) as Hz. revert Hz.
     rewrite Concave_tsukamoto_R. set (z := h * (i - e) / y + 2 * e - i). intros Hz.
-    unfold Concave_membership; cbv zeta; unR; splitR; try lra.
-    replace (i - 2 * e + z) with (h * (i - e) / y) by (subst z; field; lra).
+    rewrite Concave_eq_h by exact Hie. unfold Concave_shape; splitR; try lra.
+    replace (- 2 * e + i + z) with (h * (i - e) / y) by (subst z; field; lra).
     field; repeat split; lra.
 Qed.
 
@@ -242,16 +292,8 @@ Qed.
 
 Lemma sqrt_frac_mono (h t1 t2 : R) : 0 < h -> t1 <= t2 -> sqrt (t1 / (2 * h)) <= sqrt (t2 / (2 * h)).
 Proof.
-  intros Hh Ht. apply sqrt_le_1_alt. apply div_le_compat; lra.
+  intros Hh Ht. apply sqrt_le_1_alt. apply tsk_div_le_compat; lra.
 Qed.
-
-Lemma SShape_tsukamoto_R (s e h y : R) : SShape_tsukamoto s e h y =
-  if Rleb y (h / 2) then s + (e - s) * sqrt (y / (2 * h)) else e - (e - s) * sqrt ((h - y) / (2 * h)).
-Proof. unfold SShape_tsukamoto; cbv zeta; unR. reflexivity. Qed.
-
-Lemma ZShape_tsukamoto_R (s e h y : R) : ZShape_tsukamoto s e h y =
-  if Rleb y (h / 2) then e - (e - s) * sqrt (y / (2 * h)) else s + (e - s) * sqrt ((h - y) / (2 * h)).
-Proof. unfold ZShape_tsukamoto; cbv zeta; unR. reflexivity. Qed.
 
 Lemma SShape_z_in_support (s e h y : R) : s < e -> 0 < y < h -> s < SShape_tsukamoto s e h y < e.
 Proof.
@@ -277,12 +319,12 @@ Proof.
   intros Hse Hy. rewrite SShape_tsukamoto_R. destruct (Rleb_spec y (h / 2)) as [Hle | Hgt].
   - destruct (sqrt_frac h y ltac:(lra) ltac:(lra)) as (Hu2 & Hu0 & Hu & _). specialize (Hu Hle).
     set (u := sqrt (y / (2 * h))) in *. clearbody u.
-    unfold SShape_membership; cbv zeta; unR; splitR; try nra.
+    rewrite SShape_eq_h. unfold SShape_shape; splitR; try nra.
     replace ((s + (e - s) * u - s) / (e - s)) with u by (field; lra).
     rewrite Hu2. field. lra.
   - destruct (sqrt_frac h (h - y) ltac:(lra) ltac:(lra)) as (Hu2 & Hu0 & _ & Hu). specialize (Hu ltac:(lra)).
     set (u := sqrt ((h - y) / (2 * h))) in *. clearbody u.
-    unfold SShape_membership; cbv zeta; unR; splitR; try nra.
+    rewrite SShape_eq_h. unfold SShape_shape; splitR; try nra.
     replace ((e - (e - s) * u - e) / (e - s)) with (- u) by (field; lra).
     replace (- u * - u) with (u * u) by ring. rewrite Hu2. field. lra.
 Qed.
@@ -293,12 +335,12 @@ Proof.
   intros Hse Hy. rewrite ZShape_tsukamoto_R. destruct (Rleb_spec y (h / 2)) as [Hle | Hgt].
   - destruct (sqrt_frac h y ltac:(lra) ltac:(lra)) as (Hu2 & Hu0 & Hu & _). specialize (Hu Hle).
     set (u := sqrt (y / (2 * h))) in *. clearbody u.
-    unfold ZShape_membership; cbv zeta; unR; splitR; try nra.
+    rewrite ZShape_eq_h. unfold ZShape_shape; splitR; try nra.
     replace ((e - (e - s) * u - e) / (e - s)) with (- u) by (field; lra).
     replace (- u * - u) with (u * u) by ring. rewrite Hu2. field. lra.
   - destruct (sqrt_frac h (h - y) ltac:(lra) ltac:(lra)) as (Hu2 & Hu0 & _ & Hu). specialize (Hu ltac:(lra)).
     set (u := sqrt ((h - y) / (2 * h))) in *. clearbody u.
-    unfold ZShape_membership; cbv zeta; unR; splitR; try nra.
+    rewrite ZShape_eq_h. unfold ZShape_shape; splitR; try nra.
     replace ((s + (e - s) * u - s) / (e - s)) with u by (field; lra).
     rewrite Hu2. field. lra.
 Qed.
@@ -340,10 +382,10 @@ Proof.
   intros Hse Hy. rewrite SShape_tsukamoto_R. destruct (Rleb_spec y (h / 2)) as [Hle | Hgt].
   - destruct (sqrt_frac h y ltac:(lra) ltac:(lra)) as (_ & Hu0 & _ & _).
     set (u := sqrt (y / (2 * h))) in *. clearbody u.
-    unfold SShape_membership; cbv zeta; unR; splitR; try nra.
+    rewrite SShape_eq_h. unfold SShape_shape; splitR; try nra.
   - destruct (sqrt_frac h (h - y) ltac:(lra) ltac:(lra)) as (_ & Hu0 & _ & Hu). specialize (Hu ltac:(lra)).
     set (u := sqrt ((h - y) / (2 * h))) in *. clearbody u.
-    unfold SShape_membership; cbv zeta; unR; splitR; try nra.
+    rewrite SShape_eq_h. unfold SShape_shape; splitR; try nra.
 Qed.
 
 Lemma ZShape_reversed_not_inverse (s e h y : R) : e < s -> 0 < y < h ->
@@ -352,18 +394,14 @@ Proof.
   intros Hse Hy. rewrite ZShape_tsukamoto_R. destruct (Rleb_spec y (h / 2)) as [Hle | Hgt].
   - destruct (sqrt_frac h y ltac:(lra) ltac:(lra)) as (_ & Hu0 & Hu & _). specialize (Hu Hle).
     set (u := sqrt (y / (2 * h))) in *. clearbody u.
-    unfold ZShape_membership; cbv zeta; unR; splitR; try nra.
+    rewrite ZShape_eq_h. unfold ZShape_shape; splitR; try nra.
   - destruct (sqrt_frac h (h - y) ltac:(lra) ltac:(lra)) as (_ & Hu0 & _ & _).
     set (u := sqrt ((h - y) / (2 * h))) in *. clearbody u.
-    unfold ZShape_membership; cbv zeta; unR; splitR; try nra.
+    rewrite ZShape_eq_h. unfold ZShape_shape; splitR; try nra.
 Qed.
 
 (* ------------------------------------------------------------------ Arc *)
-(* r = end - start, centre c = end; increasing when start < end, decreasing when start > end *)
-
-Lemma Arc_tsukamoto_R (s e h y : R) : Arc_tsukamoto s e h y =
-  e + (if Rltb s e then -1 else 1) * sqrt ((e - s) * (e - s) - y * (e - s) / h * (y * (e - s) / h)).
-Proof. unfold Arc_tsukamoto; cbv zeta; unR. reflexivity. Qed.
+(* increasing when start < end, decreasing when start > end *)
 
 (* q = sqrt (r^2 - (y r / h)^2) *)
 Lemma arc_q (r h y : R) : r <> 0 -> 0 < y < h ->
@@ -371,7 +409,7 @@ Lemma arc_q (r h y : R) : r <> 0 -> 0 < y < h ->
   q * q = r * r - y * r / h * (y * r / h) /\ 0 < q /\ q < Rabs r /\
   sqrt (y * r / h * (y * r / h)) = y / h * Rabs r.
 Proof.
-  intros Hr Hy q. pose proof (div_unit h y Hy) as Hu.
+  intros Hr Hy q. pose proof (tsk_div_unit h y Hy) as Hu.
   assert (Ha : 0 < Rabs r) by (apply Rabs_pos_lt; exact Hr).
   assert (Haa : Rabs r * Rabs r = r * r).
   { unfold Rabs. destruct (Rcase_abs r); ring. }
@@ -397,7 +435,7 @@ Lemma arc_q_antitone (r h y1 y2 : R) : 0 < h -> 0 < y1 -> y1 <= y2 ->
   sqrt (r * r - y2 * r / h * (y2 * r / h)) <= sqrt (r * r - y1 * r / h * (y1 * r / h)).
 Proof.
   intros Hh H1 H12. apply sqrt_le_1_alt.
-  pose proof (div_le_compat h y1 y2 Hh H12) as Hu.
+  pose proof (tsk_div_le_compat h y1 y2 Hh H12) as Hu.
   assert (Hu0 : 0 < y1 / h) by (unfold Rdiv; apply Rmult_lt_0_compat; [lra | apply Rinv_0_lt_compat; lra]).
   replace (y1 * r / h) with (y1 / h * r) by (unfold Rdiv; ring).
   replace (y2 * r / h) with (y2 / h * r) by (unfold Rdiv; ring).
@@ -433,7 +471,7 @@ Proof.
   destruct (Rtotal_order s e) as [Hlt | [Heq | Hgt]]; [| contradiction |].
   - pose proof Hqr as Hqr'. rewrite Rabs_pos_eq in Hqr' by lra.
     destruct (Rltb_spec s e) as [_ | Hn]; [| lra].
-    unfold Arc_membership; cbv zeta; unR; splitR; try lra.
+    rewrite Arc_eq by exact Hse. unfold Arc_shape, Arc_curve, Rsqr; cbv zeta. splitdecTB; try lra.
     replace ((e + -1 * q - e) * (e + -1 * q - e)) with (q * q) by ring.
     rewrite Hq2.
     replace ((e - s) * (e - s) - ((e - s) * (e - s) - y * (e - s) / h * (y * (e - s) / h)))
@@ -441,7 +479,7 @@ Proof.
     rewrite Hsq. field. split; lra.
   - pose proof Hqr as Hqr'. rewrite Rabs_left in Hqr' by lra.
     destruct (Rltb_spec s e) as [Hn | _]; [lra |].
-    unfold Arc_membership; cbv zeta; unR; splitR; try lra.
+    rewrite Arc_eq by exact Hse. unfold Arc_shape, Arc_curve, Rsqr; cbv zeta. splitdecTB; try lra.
     replace ((e + 1 * q - e) * (e + 1 * q - e)) with (q * q) by ring.
     rewrite Hq2.
     replace ((e - s) * (e - s) - ((e - s) * (e - s) - y * (e - s) / h * (y * (e - s) / h)))
